@@ -313,3 +313,49 @@ _FILLAT = """    pub fn fill_at(&self, offset: usize, count: usize, value: u8) -
 
 """
 m("x5-fill-view-overrun", "C04,C17", VM, _SUBSLICE, _FILLAT.replace("NBYTES", "self.size") + _SUBSLICE, "?")
+
+# the stepping closure of copy_slice_volatile turned into a function that threads (dst, src, left) through a tuple — the correct
+# version is a behaviour-preserving refactor (refactors/C04-rf4-1 ...); each of these differs from it in one place
+_CSV_ORIG = "    unsafe fn copy_slice_volatile(mut dst: *mut u8, mut src: *const u8, total: usize) -> usize {\n        let mut left = total;\n\n        let align = min(alignment(src as usize), alignment(dst as usize));\n\n        let mut copy_aligned_slice = |min_align| {\n            if align < min_align {\n                return;\n            }\n\n            while left >= min_align {\n                // SAFETY: Safe because we check alignment beforehand, the memory areas are valid\n                // for reads/writes, and the source always contains a valid value.\n                unsafe { copy_single(min_align, src, dst) };\n\n                left -= min_align;\n\n                if left == 0 {\n                    break;\n                }\n\n                // SAFETY: We only explain the invariants for `src`, the argument for `dst` is\n                // analogous.\n                // - `src` and `src + min_align` are within (or one byte past) the same allocated object\n                //   This is given by the invariant on this function ensuring that [src, src + total)\n                //   are part of the same allocated object, and the condition on the while loop\n                //   ensures that we do not go outside this object\n                // - The computed offset in bytes cannot overflow isize, because `min_align` is at\n                //   most 8 when the closure is called (see below)\n                // - The sum `src as usize + min_align` can only wrap around if src as usize + min_align - 1 == usize::MAX,\n                //   however in this case, left == 0, and we'll have exited the loop above.\n                unsafe {\n                    src = src.add(min_align);\n                    dst = dst.add(min_align);\n                }\n            }\n        };\n\n        if size_of::<usize>() > 4 {\n            copy_aligned_slice(8);\n        }\n        copy_aligned_slice(4);\n        copy_aligned_slice(2);\n        copy_aligned_slice(1);\n\n        total\n    }\n"
+_CSV_FN = """    unsafe fn copy_slice_volatile(dst: *mut u8, src: *const u8, total: usize) -> usize {
+        type Cursor = (*mut u8, *const u8, usize);
+        let align = min(alignment(src as usize), alignment(ALIGN_DST as usize));
+
+        unsafe fn pass(min_align: usize, align: usize, cursor: Cursor) -> Cursor {
+            let (mut dst, mut src, mut left) = cursor;
+            GATE
+            while left >= min_align {
+                // SAFETY: test mutant scaffold
+                unsafe { copy_single(min_align, src, dst) };
+                left -= min_align;
+                if left == 0 {
+                    break;
+                }
+                // SAFETY: test mutant scaffold
+                unsafe {
+                    src = src.add(STRIDE);
+                    dst = dst.add(min_align);
+                }
+            }
+            (dst, src, left)
+        }
+
+        let mut cursor: Cursor = (dst, src, total);
+        // SAFETY: test mutant scaffold
+        unsafe {
+            if size_of::<usize>() > 4 {
+                cursor = pass(8, align, cursor);
+            }
+            cursor = pass(W4, align, cursor);
+            cursor = pass(W2, align, THREAD);
+            pass(1, align, cursor);
+        }
+        total
+    }"""
+def _csv(align_dst="dst", gate="if align < min_align {\n                return (dst, src, left);\n            }", stride="min_align", w4="4", w2="2", thread="cursor"):
+    return _CSV_FN.replace("ALIGN_DST", align_dst).replace("GATE", gate).replace("STRIDE", stride).replace("W4", w4).replace("W2", w2).replace("THREAD", thread)
+m("x6-stepfn-restart-state", "C06", VM, _CSV_ORIG, _csv(thread="(dst, src, total)"), "?")
+m("x6-stepfn-stride-one", "C06", VM, _CSV_ORIG, _csv(stride="1"), "?")
+m("x6-stepfn-no-align-gate", "C06", VM, _CSV_ORIG, _csv(gate=""), "?")
+m("x6-stepfn-order-2-4", "C06", VM, _CSV_ORIG, _csv(w4="2", w2="4"), "?")
+m("x6-stepfn-align-src-only", "C06", VM, _CSV_ORIG, _csv(align_dst="src"), "?")
